@@ -159,8 +159,12 @@ PINNED = os.path.join(VERIF, "lib", "pinned_sources.json")
 def source_hashes():
     import hashlib
     out = {}
-    r = sh(["git", "-C", REPO, "ls-files", "*.go"])
-    names = [n for n in r.stdout.split("\n") if n and not n.endswith("_test.go")]
+    names = []
+    for root, dirs, files in os.walk(REPO):
+        dirs[:] = sorted(d for d in dirs if not d.startswith(".") and d != "testdata")
+        for fn in sorted(files):
+            if fn.endswith(".go") and not fn.endswith("_test.go"):
+                names.append(os.path.relpath(os.path.join(root, fn), REPO))
     for n in names:
         try:
             out[n] = hashlib.sha256(open(os.path.join(REPO, n), "rb").read()).hexdigest()
